@@ -73,7 +73,10 @@ def build_cases(ctx, tags, subs):
     for sp in specs:
         cases.append("tag_rt " + sp)
     # subsystems, each through a real idle reply
-    subnames = [n for _, n in subs] + ["foo", "Player", "PLAYER", "stored_playlis", "x-y", "ß", "playlist2", "queue", "Queue"]
+    subnames = [n for _, n in subs] + ["foo", "Player", "PLAYER", "stored_playlis", "x-y", "ß", "playlist2", "queue", "Queue",
+                                        # a known name with something around it is another name (nothing is trimmed or folded)
+                                        "player\r", "player ", "player\t", " player", "mixer\u00a0", "output\r", "database ", "player\x0b",
+                                        "pl\u0131ayer", "update\x00"]
     for n in subnames:
         cases.append("sub " + hexs(n))
     # pairs: every value against every other (named vs named, named vs catch-all, catch-all vs catch-all)
